@@ -4,6 +4,7 @@ import SluProofs.Lemmas.LUSchedule
 import SluProofs.Lemmas.DfsTopo
 import SluProofs.Lemmas.Prune
 import SluProofs.Lemmas.ColDfs
+import SluProofs.Lemmas.PanelDfs
 /-
 C02 — Factors reproduce the permuted matrix; pivoting bounds hold.
 
@@ -979,3 +980,128 @@ theorem colDfs_lsub_nodup (i : Input) (h : wfIn i = true) :
 example := colDfs_lsub_nodup exIn (by decide +kernel)
 
 end Slu.ColDfs
+
+/-! ## `[sdcz]panel_dfs` (Slu/Model/PanelDfs.lean; lockstep with the column_dfs machine: Lemmas/PanelDfs.lean) -/
+namespace Slu.PanelDfs
+open Slu Slu.LU List
+open Slu.ColDfs (EMPTY rd slice)
+
+/-- **C02 (one panel column of `[sdcz]panel_dfs`, given the shared-marker state).**  For every panel column `jj`
+(environment `e`) and every state `ps` accepted by `ColOK` — the column's `repfnz` slice is clean, no row carries
+the mark `jj`, `segrep[0..nseg)` lists distinct representatives all recorded for this panel (`marker1 >= jcol`) —
+the explicit-stack loop over the rows `rows` of `A(:,jj)` terminates within the fuel bound and
+* `{s : repfnz_col[s] != EMPTY}` is exactly the list `post` computed by the RECURSIVE search `dfsList` on the graph
+  read off the arrays (`Slu.ColDfs.adjR`), started from the pivot columns of the rows, nothing visited;
+* `segrep[nseg_in .. nseg_out)` is the postorder `post.reverse` FILTERED by `marker1[t] < jcol` on entry (the
+  representatives no earlier column of the panel has recorded), `segrep[0..nseg_in)` is untouched, `marker1`
+  becomes `jj` exactly on the recorded ones, and the invariant on `segrep`/`marker1` holds again on exit. -/
+theorem panelDfs_column_eq_recursive_partial {e : Env} {ps : St} (hC : ColOK e ps) {fuel : Nat}
+    (hfuel : (e.jcol.toNat + 1) * (e.lsub.size + 2) ≤ fuel) {rows : List Int} (hrows : ∀ r ∈ rows, 0 ≤ r ∧ r < e.m) :
+    ∃ ps' post, search e fuel rows ps = some ps' ∧
+      post = dfsList (ColDfs.adjR e.cenv e.lsub) e.jcol.toNat ((ColDfs.rootCols e.cenv rows).map (ColDfs.repN e.cenv)) [] ∧
+      (∀ s : Nat, (s : Int) < e.jcol → (fnz e ps' s ≠ EMPTY ↔ s ∈ post)) ∧
+      ps.nseg ≤ ps'.nseg ∧
+      slice ps'.segrep ps.nseg ps'.nseg = (post.reverse.map Int.ofNat).filter (fun t => decide (m1 e ps t < e.jcol)) ∧
+      slice ps'.segrep 0 ps.nseg = slice ps.segrep 0 ps.nseg ∧
+      (∀ t, 0 ≤ t → t < e.jcol → m1 e ps' t =
+        if t ∈ (post.reverse.map Int.ofNat).filter (fun t => decide (m1 e ps t < e.jcol)) then e.jj else m1 e ps t) ∧
+      (slice ps'.segrep 0 ps'.nseg).Nodup ∧
+      (∀ t ∈ slice ps'.segrep 0 ps'.nseg, 0 ≤ t ∧ t < e.jcol ∧ e.jcol ≤ m1 e ps' t) := by
+  obtain ⟨ps', post, h1, h2, h3, h4, h5, h6, h7, h8, h9, _⟩ := panelCol_eq_dfsList hC hfuel hrows
+  exact ⟨ps', post, h1, h2, h3, h4, h5, h6, h7, h8, h9⟩
+
+/-- **C02 (`[sdcz]panel_dfs`, the whole routine = the recursive search, column by column).**  For every state
+accepted by the decidable predicate `wfPanelIn` (sizes; pivot columns `< jcol`; representatives and pruned lists
+well formed = acyclic; `marker[0..m)` and `marker1` hold values `< jcol`; the panel's `repfnz` is clean; the
+panel columns of A lie inside `asub`/`nzval` with rows in range) the model of the routine terminates within
+`fuelBound` and
+* for EVERY panel column `jcol + k` the set `{s : repfnz_col[s] != EMPTY}` left in the column's slice of `repfnz`
+  is exactly `colPost i k` — the list the RECURSIVE search `Slu.LU.dfsList` computes on the graph read off the
+  arrays (`Slu.ColDfs.adjR`: pruned lists, storage order) from the pivot columns of the rows of `A(:, jcol+k)`;
+* `segrep[0..nseg)` is `segSpec i w`: the concatenation, over the panel columns in order, of each column's
+  postorder `(colPost i k).reverse` restricted to the representatives that no earlier column has put there
+  (the effect of the shared `marker1`), without duplicates, all `< jcol`.
+* equivalently (`dfsList_visited`, `segSpec_eq_visAcc`: the set found by the earlier columns is closed under
+  successors, so restricting the postorder of a fresh search to the new representatives = searching with the
+  earlier ones already visited): `segrep[0..nseg)` REVERSED is `visAcc i w`, the accumulator of ONE recursive
+  search `dfsList` run over the panel columns in order, each column started with everything the earlier columns
+  found counted as visited — the "visited on entry" generality of `colDfs_eq_recursive`. -/
+theorem panelDfs_eq_recursive {V : Type} (i : Input V) (h : wfPanelIn i = true) :
+    ∃ o, panelDfs i (fuelBound i) = some o ∧
+      (∀ k : Nat, (k : Int) < i.w → ∀ s : Nat, (s : Int) < i.jcol → (rd o.repfnz (k * i.m + s) ≠ EMPTY ↔ s ∈ colPost i k)) ∧
+      0 ≤ o.nseg ∧ slice o.segrep 0 o.nseg = segSpec i i.w.toNat ∧ (segSpec i i.w.toNat).Nodup ∧
+      (∀ t ∈ segSpec i i.w.toNat, 0 ≤ t ∧ t < i.jcol) ∧
+      (slice o.segrep 0 o.nseg).reverse = (visAcc i i.w.toNat).map Int.ofNat := by
+  obtain ⟨o, h1, h2, h3, h4, h5, h6⟩ := panelDfs_spec h
+  have hw : 1 ≤ i.w := (wfPanelIn_unpack h).1.2.1
+  refine ⟨o, h1, h2, h3, h4, h5, h6, ?_⟩
+  rw [h4, (segSpec_eq_visAcc h i.w.toNat (by omega)).1, ← map_reverse, reverse_reverse]
+
+/-- **C02 (`segrep` after `[sdcz]panel_dfs`: no duplicates, the union of the reaches, topological).**  On every
+state accepted by `wfPanelIn`: `segrep[0..nseg)` = `P` (as integers) where `P` has no duplicates, lists exactly
+the representatives reachable from SOME panel column (from the pivot columns of its rows, through the pruned
+lists), and places every successor `r` of a listed representative `k` BEFORE `k` (so the reverse order, the one
+`[sdcz]panel_bmod` walks, is a topological order of the union); the graph is acyclic and stays below `jcol`. -/
+theorem panelDfs_segrep_topo {V : Type} (i : Input V) (h : wfPanelIn i = true) :
+    ∃ o P, panelDfs i (fuelBound i) = some o ∧ 0 ≤ o.nseg ∧ slice o.segrep 0 o.nseg = P ∧ P.Nodup ∧
+      (∀ x : Nat, (x : Int) ∈ P ↔ ∃ k : Nat, (k : Int) < i.w ∧
+        ∃ s ∈ (ColDfs.rootCols i.cenv (colRows i (i.jcol + k))).map (ColDfs.repN i.cenv), Reach (ColDfs.adjR i.cenv i.lsub) s x) ∧
+      (∀ a r : Nat, (a : Int) ∈ P → r ∈ ColDfs.adjR i.cenv i.lsub a → [(r : Int), (a : Int)] <+ P) ∧
+      (∀ t ∈ P, 0 ≤ t ∧ t < i.jcol) ∧
+      (∀ k, ∀ r ∈ ColDfs.adjR i.cenv i.lsub k, k < r ∧ r < i.jcol.toNat) := by
+  obtain ⟨o, h1, _, h3, h4, h5, h6, _⟩ := panelDfs_eq_recursive i h
+  have hE := wfPanelIn_env h
+  have hadj := ColDfs.adjR_lt hE
+  have hw : 1 ≤ i.w := (wfPanelIn_unpack h).1.2.1
+  refine ⟨o, _, h1, h3, h4, h5, ?_, segSpec_topo i h i.w.toNat (by omega), h6, hadj⟩
+  intro x
+  rw [mem_segSpec]
+  constructor
+  · rintro ⟨k, hk, hx⟩
+    obtain ⟨s, hs, hsx⟩ := mem_map.mp hx
+    have : s = x := Int.ofNat.inj hsx
+    subst this
+    have hroots := ColDfs.rootCols_lt hE (wfPanelIn_rows h (k := k) (by omega))
+    refine ⟨k, by omega, ?_⟩
+    have := (mem_dfsPost_iff hadj _ hroots s).mp (mem_reverse.mpr hs)
+    exact this
+  · rintro ⟨k, hk, hx⟩
+    have hroots := ColDfs.rootCols_lt hE (wfPanelIn_rows h (k := k) hk)
+    refine ⟨k, by omega, mem_map.mpr ⟨x, ?_, rfl⟩⟩
+    have := (mem_dfsPost_iff hadj _ hroots x).mpr hx
+    exact mem_reverse.mp this
+
+/-! example: the factored state of `Slu.ColDfs.exIn` (8 rows, columns 0..5 factored), panel of the columns 6, 7:
+A(:,6) has rows 0, 7 and A(:,7) has rows 3, 1, 6.  Column 6 reaches 0 → 2 → 5, 4 (`segrep` 5 2 4 0); column 7
+reaches 3 (new) and, through row 1 (column 1, representative 2), 2 → 5 again: not recorded a second time. -/
+def exP : Input Int :=
+  { m := 8, w := 2, jcol := 6,
+    asub := #[0, 7, 3, 1, 6], nzval := #[10, 11, 12, 13, 14],
+    colbeg := #[0, 0, 0, 0, 0, 0, 0, 2], colend := #[0, 0, 0, 0, 0, 0, 2, 5],
+    perm_r := #[0, 1, 2, 3, 4, 5, -1, -1],
+    dense := #[0, 0, 0, 0, 0, 0, 0, 0, 0, 0, 0, 0, 0, 0, 0, 0],
+    panelLsub := #[-1, -1, -1, -1, -1, -1, -1, -1, -1, -1, -1, -1, -1, -1, -1, -1],
+    segrep := #[-7, -7, -7, -7, -7, -7, -7, -7],
+    repfnz := #[-1, -1, -1, -1, -1, -1, -1, -1, -1, -1, -1, -1, -1, -1, -1, -1],
+    xprune := #[3, 99999, 11, 13, 16, 19, 0],
+    marker := #[0, 0, 0, 0, 5, 5, 5, 5, -1, -1, 3, 3, 5, 5, 1, 1, 6, 6, 6, 6, 7, 7, 7, 7],
+    parent := #[4, 4, 4, 4, 4, 4, 4, 4], xplore := #[9, 9, 9, 9, 9, 9, 9, 9],
+    xsup := #[0, 1, 3, 4, 5, 6, -7, -7], supno := #[0, 1, 1, 2, 3, 4, 4, -7],
+    lsub := #[0, 2, 4, 6,  1, 2, 5, 7,  2, 5, 7,  3, 7,  4, 5, 6,  5, 6, 7,  -5, -5, -5],
+    xlsub := #[0, 4, 8, 11, 13, 16, 19, -7] }
+
+example : wfPanelIn exP = true := by decide +kernel
+example : (panelDfs exP (fuelBound exP)).map (fun o => (o.nseg, slice o.segrep 0 o.nseg, slice o.repfnz 0 6, slice o.repfnz 8 14)) =
+    some (5, [5, 2, 4, 0, 3], [0, -1, 2, -1, 4, 5], [-1, -1, 1, 3, -1, 5]) := by decide +kernel
+example : (panelDfs exP (fuelBound exP)).map (fun o => (slice o.panelLsub 0 3, slice o.panelLsub 8 11, o.dense.toList)) =
+    some ([6, 7, -1], [7, 6, -1], [10, 0, 0, 0, 0, 0, 0, 11, 0, 13, 0, 12, 0, 0, 14, 0]) := by decide +kernel
+example := panelDfs_column_eq_recursive_partial (wfPanelIn_colOK0 (i := exP) (by decide +kernel)) (fuel := fuelBound exP) (le_refl _)
+  (by have := wfPanelIn_rows (i := exP) (by decide +kernel) (k := 0) (by decide); simpa using this)
+
+example := panelDfs_eq_recursive exP (by decide +kernel)
+example := panelDfs_segrep_topo exP (by decide +kernel)
+example : segSpec exP 2 = [5, 2, 4, 0, 3] := by decide +kernel
+example : visAcc exP 2 = [3, 0, 4, 2, 5] := by decide +kernel
+example : (colPost exP 0, colPost exP 1) = ([0, 4, 2, 5], [2, 5, 3]) := by decide +kernel
+
+end Slu.PanelDfs
